@@ -69,13 +69,26 @@ class Run:
                     # an engine crash is a checker problem unless the stand-ins decide; recorded, never a violation
                     self.errors.append(r["unit"] + ": " + r["undecided"])
             seen = collections.Counter()
+            # definite counterexamples from the bounded refutation pass (quantifier-free, with model)
+            bmc = (r.get("bmc") or {}).get("counterexamples", [])
+            confirmed = set()
+            for c in bmc:
+                c["key"] = re.sub(r":bmc\d+:", ":", strip_line(c["name"]))
+                c["bmc_bound"] = r["bmc"]["bound"]
+                if c["key"] not in confirmed:
+                    confirmed.add(c["key"])
+                    self._refuted(r, c)
             for o in r["obligations"]:
                 base = strip_line(o["name"])
                 seen[base] += 1
                 o["key"] = base
                 if o["status"] == "refuted":
+                    if base in confirmed:
+                        continue
                     self._refuted(r, o)
                 elif o["status"] == "undecided":
+                    if base in confirmed:
+                        continue
                     self.undecided.append({"obligation": o["name"], "reason": o.get("reason", "")})
 
     def _refuted(self, unit_res, o):
@@ -91,6 +104,7 @@ class Run:
         rp = o.get("replay") or {}
         path = os.path.join(self.replay_dir, safe(key) + ".json")
         doc = {"property": self.pid, "obligation": o["name"], "unit": unit_res["unit"], "backend": o["backend"],
+               "found_by": (f"bounded refutation pass, sequence lengths <= {o['bmc_bound']} (definite model of a quantifier-free query)" if "bmc_bound" in o else "unbounded proof attempt (solver model)"),
                "solver_model": o.get("model"), "solver_goal_smt2_tail": o.get("smt2"), "replay": rp,
                "source_sha1": unit_res.get("info", {}).get("sha1"), "repo": REPO}
         with open(path, "w") as f:
@@ -159,7 +173,8 @@ class Run:
         for r in self.unit_results + self.extra_results:
             functions.append({"unit": r.get("unit_name", r["unit"]), "sha1": r.get("info", {}).get("sha1"), "lines": r.get("info", {}).get("lines"),
                               "obligations": len(r["obligations"]), "discharged": sum(1 for o in r["obligations"] if o["status"] == "discharged"),
-                              "undecided": r.get("undecided"), "note": r.get("note", "")})
+                              "undecided": r.get("undecided"), "note": r.get("note", ""),
+                              "bounded_refutation_pass": ({k: v for k, v in r["bmc"].items() if k != "counterexamples"} | {"counterexamples": len(r["bmc"]["counterexamples"])}) if r.get("bmc") else r.get("bmc_note")})
         assumptions = set(meta.get("assumptions", []))
         dropped = set()
         for r in self.unit_results + self.extra_results:
